@@ -179,7 +179,7 @@ PROPS = {
         level_note='The handler-program space is finite and stated in coverage.bounded.bound.',
     ),
     'C08': dict(
-        level='other', contracts=['C10', 'C20'], frames=['confinement'],
+        level='other', contracts=['C10', 'C20', 'C02'], frames=['confinement'],
         technique='bounded run-time contract check with forced thread interleavings (token hand-over at every executed statement of the '
                   'package via sys.settrace; all schedules up to a preemption bound) against the served-alone response; proved: the ts_props '
                   'accessors read and write only the thread-local store of their own instance; the process-wide template cache is published atomically',
@@ -200,7 +200,7 @@ PROPS = {
         level_note='History length and request kinds are stated in coverage.bounded.bound.',
     ),
     'C10': dict(
-        level='proof', contracts=['C10', 'C03'], frames=[],
+        level='proof', contracts=['C10', 'C03', 'C02'], frames=['confinement'],
         technique='deductive: heap-model VCs from the real AST of the ts_props accessors (fget/fset/fdel) and of the wrapped __init__ '
                   '(ownership: an accessor touches only the store of the instance it is called on; init writes nothing but its own instance '
                   'and its own store; no nonlocal/global write), and of HTTPResponse.apply (no aliasing of long-lived objects); bounded '
